@@ -1840,7 +1840,8 @@ impl Scenario for C09 {
     fn assumptions(&self) -> Vec<&'static str> {
         vec![
             "read bound checked: pulled <= L0 + limit + 2 x chunk_max, limit = the constant in force at the hostile position (1 MB root/notification, 100 MB after a snapshot/delta root start tag)",
-            "an endless list of individually small valid sibling elements is not a hostile kind: it has no offending element and the statement sets no bound for it",
+            "an endless list of individually small valid sibling elements is not a hostile kind: it has no offending element and the statement sets no bound for it; an endless run of short comments IS treated as hostile (comments are not elements, so nothing may re-arm the per-element counter)",
+            "deliberate strengthening: a truncated library-written document must never parse as a *different* value (a proper prefix of such a document is never well-formed XML, so only a parser that gives up well-formedness could do that)",
             "short-writing sinks are only used for documents without base64 object data: base64::EncoderWriter legitimately returns Ok(0) while draining, which std's write_all reports as WriteZero (a robustness gap outside the statement, documented in DESIGN.md)",
             "the heap bound (16 x (limit + chunk) + 4 MiB) is deliberately coarse; the byte monitor is the exact bound",
             "the sort_and_verify_deltas / has_matching_origins sub-clauses are pure; they ride along on the generated notification values",
